@@ -1,26 +1,26 @@
 #!/usr/bin/env python3
 """tools/seedtest.py <seed-id> [props...] — confirm a seeded change and run checks against it.
 
-Takes /verif/seeded/<seed-id>/{patch.diff,demo_test.go}; in a scratch worktree confirms that the
-change compiles, the pinned suite still passes and the demo fails with / passes without the change;
-then applies the patch to /repo, runs the quick checks of the given properties, and restores /repo.
-Results are appended to /verif/seeded/<seed-id>/meta.json."""
+Takes /verif/seeded/<seed-id>/{patch.diff,demo_test.go}.
+ 1. In a scratch worktree of /repo: confirms that the change compiles (with and without -tags verif),
+    the pinned suite still passes, and the demo fails with / passes without the change.
+ 2. Runs the quick checks of the given properties against the change.  By default this is done on an
+    isolated copy (VERIF_ROOT=/tmp/vseed_<id>, REPO_ROOT=/tmp/rseed_<id>: a copy of /verif with its build
+    output and a worktree of /repo with the patch applied), so that /repo and the shared Coq build are
+    not disturbed while proofs are being developed; with --in-place the patch is applied to /repo itself
+    (git -C /repo apply), the registered commands are run from /verif, and /repo is restored afterwards.
+Results are written to /verif/seeded/<seed-id>/meta.json ("confirmed", "checks")."""
 import json, os, subprocess, sys, time, shutil
 
 ENV = dict(os.environ, GOFLAGS="-mod=mod", GOPROXY="off", GOSUMDB="off", GOTOOLCHAIN="local")
 
 
-def sh(cmd, cwd=None, timeout=3600):
-    p = subprocess.run(cmd, shell=True, cwd=cwd, env=ENV, stdout=subprocess.PIPE, stderr=subprocess.STDOUT, text=True, errors="replace", timeout=timeout)
+def sh(cmd, cwd=None, timeout=3600, env=None):
+    p = subprocess.run(cmd, shell=True, cwd=cwd, env=env or ENV, stdout=subprocess.PIPE, stderr=subprocess.STDOUT, text=True, errors="replace", timeout=timeout)
     return p.returncode, p.stdout
 
 
-def main():
-    sid = sys.argv[1]
-    props = sys.argv[2:]
-    d = "/verif/seeded/" + sid
-    meta_path = d + "/meta.json"
-    meta = json.load(open(meta_path)) if os.path.exists(meta_path) else {}
+def confirm(sid, d, meta):
     wt = "/tmp/seedconfirm_" + sid
     sh("git -C /repo worktree remove --force %s" % wt)
     rc, out = sh("git -C /repo worktree add -q --detach %s HEAD" % wt)
@@ -40,34 +40,69 @@ def main():
         print("confirm:", meta["confirmed"])
     finally:
         sh("git -C /repo worktree remove --force %s" % wt)
-    if not props:
-        json.dump(meta, open(meta_path, "w"), indent=1)
+    c = meta["confirmed"]
+    return c["demo_passes_without_change"] and c["builds_with_change"] and c["demo_fails_with_change"] and c["pinned_suite_passes_with_change"]
+
+
+def run_checks(root, props, env):
+    results = {}
+    for p in props:
+        t0 = time.time()
+        rc, out = sh("cd %s && bin/check %s --tier quick" % (root, p), timeout=7200, env=env)
+        vio = [l for l in out.splitlines() if l.startswith("VIOLATION")]
+        results[p] = {"exit": rc, "violation_lines": vio[:3], "wall_s": round(time.time() - t0, 1)}
+        if rc not in (0, 1) or (rc == 1 and not vio):
+            results[p]["output_tail"] = out[-600:]
+        print(p, "exit", rc, vio[:2])
+        for l in vio[:1]:
+            path = l.split("replay=")[1].split()[0]
+            if os.path.exists(path):
+                r = json.load(open(path))
+                results[p]["replay"] = {k: r.get(k) for k in ("kind", "input", "detail", "theorems", "files_that_failed") if r.get(k) is not None}
+    return results
+
+
+def main():
+    args = [a for a in sys.argv[1:] if not a.startswith("--")]
+    in_place = "--in-place" in sys.argv
+    sid = args[0]
+    props = args[1:]
+    d = "/verif/seeded/" + sid
+    meta_path = d + "/meta.json"
+    meta = json.load(open(meta_path)) if os.path.exists(meta_path) else {}
+    ok = confirm(sid, d, meta)
+    json.dump(meta, open(meta_path, "w"), indent=1)
+    if not props or not ok:
         return
-    # run the checks against /repo with the change applied, then restore
-    rc, out = sh("git -C /repo status --porcelain")
-    assert out.strip() == "", "/repo is not clean: " + out
-    rc, out = sh("git -C /repo apply %s/patch.diff" % d)
-    assert rc == 0, out
     results = meta.get("checks", {})
-    try:
-        for p in props:
-            t0 = time.time()
-            rc, out = sh("cd /verif && bin/check %s --tier quick" % p, timeout=7200)
-            vio = [l for l in out.splitlines() if l.startswith("VIOLATION")]
-            results[p] = {"exit": rc, "violation_lines": vio[:3], "wall_s": round(time.time() - t0, 1)}
-            print(p, "exit", rc, vio[:2])
-            for l in vio[:1]:
-                path = l.split("replay=")[1].split()[0]
-                if os.path.exists(path):
-                    r = json.load(open(path))
-                    results[p]["replay"] = {k: r.get(k) for k in ("kind", "input", "detail")}
-    finally:
-        sh("git -C /repo checkout -- . && git -C /repo clean -fdq")
+    if in_place:
+        rc, out = sh("git -C /repo status --porcelain")
+        assert out.strip() == "", "/repo is not clean: " + out
+        rc, out = sh("git -C /repo apply %s/patch.diff" % d)
+        assert rc == 0, out
+        try:
+            results.update(run_checks("/verif", props, ENV))
+        finally:
+            sh("git -C /repo checkout -- . && git -C /repo clean -fdq")
+        for p in props:   # restore the evidence of the clean tree
+            sh("cd /verif && bin/check %s --tier quick" % p, timeout=7200)
+    else:
+        vroot, rroot = "/tmp/vseed_" + sid, "/tmp/rseed_" + sid
+        sh("git -C /repo worktree remove --force %s; rm -rf %s" % (rroot, vroot))
+        try:
+            rc, out = sh("git -C /repo worktree add -q --detach %s HEAD && git -C %s apply %s/patch.diff" % (rroot, rroot, d))
+            assert rc == 0, out
+            rc, out = sh("rsync -a --exclude .git --exclude evidence/replay --exclude 'build/.lock' /verif/ %s/" % vroot)
+            assert rc == 0, out
+            sh("sed -i 's#=> /repo#=> %s#' %s/tools/harness/go.mod" % (rroot, vroot))
+            env = dict(ENV, VERIF_ROOT=vroot, REPO_ROOT=rroot)
+            results.update(run_checks(vroot, props, env))
+            for p in results:
+                results[p]["mode"] = "isolated copy (VERIF_ROOT/REPO_ROOT)"
+        finally:
+            sh("git -C /repo worktree remove --force %s; rm -rf %s" % (rroot, vroot))
     meta["checks"] = results
     json.dump(meta, open(meta_path, "w"), indent=1)
-    # restore evidence of the clean tree for the touched properties
-    for p in props:
-        sh("cd /verif && bin/check %s --tier quick" % p, timeout=7200)
 
 
 if __name__ == "__main__":
